@@ -47,7 +47,23 @@ VarExprs(t) ==
   IN { Src("vargroup", <<SDecl("v", t)>>, EGrp(v), FALSE) }
      \cup (IF IsArr(t) THEN { Src("varconcat", <<SDecl("v", t)>>, EBin("+", v, v), FALSE), Src("varslice", <<SDecl("v", t)>>, ESlice(v, <<>>, <<>>), FALSE) } ELSE {})
 
-Sources == {VarSrc(t) : t \in Universe} \cup {LitSrc(t) : t \in Universe \ {T_any}} \cup Empties
+\* a literal that directly contains a composite-typed variable is not a constant (spec.md Assignability).
+\* (A variable nested two literals deep, [[v]], is NOT observed: the documentation calls it a non-constant,
+\* the implementation converts it element-wise; see DESIGN.md Appendix B.)
+LitVar(t) == { Src("litvar", <<SDecl("v", t)>>, EArr(<<EVar("v", t)>>), FALSE),
+               Src("litvar", <<SDecl("v", t)>>, EMap(<<K_k>>, <<EVar("v", t)>>), FALSE),
+               Src("litvar-mixed", <<SDecl("v", t)>>, EArr(<<EVar("v", t), Witness(t)>>), FALSE) }
+\* a variable declared by inference from an untyped empty value is a variable of the any-based type
+InferredEmptyVar ==
+  { Src("infvar", <<SInfer("v", EArr(<<>>))>>, EVar("v", TArr(T_any)), FALSE),
+    Src("infvar", <<SInfer("v", EMap(<<>>, <<>>))>>, EVar("v", TMap(T_any)), FALSE),
+    Src("infvar-lit", <<SInfer("v", EArr(<<>>))>>, EArr(<<EVar("v", TArr(T_any))>>), FALSE),
+    Src("infvar-mixed", <<SInfer("v", EArr(<<>>))>>, EArr(<<EVar("v", TArr(T_any)), EArr(<<ENum(I(1))>>)>>), FALSE),
+    Src("infvar-mixed", <<SInfer("v", EMap(<<>>, <<>>))>>, EMap(<<K_k, <<106>>>>, <<EVar("v", TMap(T_any)), EMap(<<<<120>>>>, <<ENum(I(1))>>)>>), FALSE),
+    Src("infvar-group", <<SInfer("v", EGrp(EArr(<<>>)))>>, EArr(<<EVar("v", TArr(T_any)), EArr(<<ENum(I(1))>>)>>), FALSE) }
+
+Sources == UNION {LitVar(t) : t \in {TArr(T_num), TMap(T_num), TArr(T_any), TArr(TArr(T_num))}} \cup InferredEmptyVar
+           \cup {VarSrc(t) : t \in Universe} \cup {LitSrc(t) : t \in Universe \ {T_any}} \cup Empties
            \cup UNION {ConstExprs(t) : t \in (Types1 \ {T_any}) \cup {TArr(TArr(T_num))}}
            \cup UNION {VarExprs(t) : t \in {T_num, TArr(T_num), TArr(T_any), TMap(T_num)}}
 
